@@ -32,6 +32,7 @@ Atoms # atomic
 3 2 4.0 1.0 6.0
 """
     (d / 'lmp.data').write_text(data)
+    (d / 'lmp2.data').write_text(data.replace('0.0 5.0 xlo xhi', '0.0 5.5 xlo xhi'))  # same atoms, other box
     frames = []
     for t in range(T_FRAMES):
         frames.append('3\nframe %d\nLi %.6f 0.5 0.5\nLi 2.5 %.6f 3.5\nS 4.0 1.0 %.6f\n' % (t, 0.5 + 2.4 * t, 3.0 - 1.7 * t, 6.0 + 0.6 * t))  # atoms leave the box
@@ -165,7 +166,7 @@ def write_gromacs(d: Path):
 
 
 LOADERS = {
-    'lammps': (write_lammps, ['lmp.data', 'lmp.xyz']),
+    'lammps': (write_lammps, ['lmp.data', 'lmp2.data', 'lmp.xyz']),
     'vasprun': (write_vasprun, ['vasprun.xml', 'vasprun.run1.xml']),
     'gromacs': (write_gromacs, ['g.gro', 'g.xtc']),
 }
@@ -176,7 +177,7 @@ def call_loader(loader: str, d: Path, variant: dict):
 
     kw = dict(variant)
     if loader == 'lammps':
-        base = dict(coords_file=d / 'lmp.xyz', data_file=d / 'lmp.data', temperature=300, time_step=1.0)
+        base = dict(coords_file=d / 'lmp.xyz', data_file=d / kw.pop('_data', 'lmp.data'), temperature=300, time_step=1.0)
         base.update(kw)
         return Trajectory.from_lammps(**base)
     if loader == 'vasprun':
@@ -192,8 +193,8 @@ def call_loader(loader: str, d: Path, variant: dict):
 VARIANTS = {
     'lammps': [
         {}, {'temperature': 500}, {'time_step': 2.0}, {'type_mapping': {'LI': 'Na', 'S': 'Se'}}, {'type_mapping': {'LI': 'K', 'S': 'Se'}}, {'type_mapping': {'LI': 'Na', 'S': 'Se', 'X': 'O'}},
-        {'constant_lattice': False}, {'atom_style': 'charge'}, {'coords_format': 'XYZ'},
+        {'constant_lattice': False}, {'atom_style': 'charge'}, {'coords_format': 'XYZ'}, {'_data': 'lmp2.data'},
     ],
-    'vasprun': [{}, {'constant_lattice': False}, {'exception_on_bad_xml': False}, {'parse_dos': False}, {'_file': 'vasprun.run1.xml'}],
+    'vasprun': [{}, {'constant_lattice': False}, {'exception_on_bad_xml': False}, {'parse_dos': False}, {'_file': 'vasprun.run1.xml'}, {'ionic_step_skip': 2}],
     'gromacs': [{}, {'temperature': 500}, {'constant_lattice': False}],
 }
